@@ -114,8 +114,11 @@ def gen_case(rng, chk, mode, explicit, as_fraction, tname=None):
 def gen_round(rng, chk):
     tname = rng.choice(["Length", "Mass", "Velocity", "Energy"])
     u = rng.choice(SI.units_of(tname))
-    n = rng.choice([0, 1, 2, 3, 6, -1, -2])
+    n = rng.choice([0, 1, 2, 3, 6, -1, -2, None])
     kind = rng.choice(["tie", "rand", "frac"])
+    nn = n
+    if n is None:
+        n = 0
     if kind == "tie":
         x = (F(rng.randint(-500, 500)) + F(1, 2)) / F(10) ** n
     elif kind == "rand":
@@ -125,8 +128,9 @@ def gen_round(rng, chk):
     as_fraction = dec_str(x) is None or rng.random() < 0.4
     steps = [{"id": "q", "k": "q", "e": Q(num(x, "F" if as_fraction else "D"),
                                           u)},
-             {"k": "r", "e": ["round", V("q"), n]}]
-    info = dict(type=tname, u=u, x=str(x), n=n, kind=kind)
+             {"k": "r", "e": (["round", V("q"), n] if nn is not None
+                              else ["round", V("q")])}]
+    info = dict(type=tname, u=u, x=str(x), n=nn, kind=kind)
 
     def judge(obs, rec, case):
         if obs is None or "q" not in obs:
@@ -135,6 +139,8 @@ def gen_round(rng, chk):
         q, r = obs["q"], obs.get("r")
         chk.case(("round", u, str(x), n), nontrivial=True)
         chk.count("round|" + kind)
+        if nn is None:
+            chk.count("round|digits omitted")
         if q.get("k") != "Q" or r is None or r.get("k") != "Q":
             chk.violation("round() did not return a quantity",
                           dict(info=info, obs=obs, steps=steps), "round-raises")
@@ -213,6 +219,7 @@ def run(chk, R, tier, seed):
         chk.require("zero-corner-tie|%s|F" % mode)
         chk.require("zero-corner-tie|%s|D" % mode)
     chk.require("round|tie")
+    chk.require("round|digits omitted")
     chk.require("reject|othertype")
     chk.require("reject|zero amount")
     chk.require("reject|noref-temp")
